@@ -418,6 +418,9 @@ class Check:
         if status == 0 and self.inconclusive:
             status = 2
         mir, res, th, mh = load_mir()
+        if os.environ.get('VERIF_THOROUGH_FALLBACK') == '1':
+            self.notes.append('thorough tier requested: the deeper bounds of this property were not validated within the time '
+                              'available (DESIGN.md 11.9), so the quick bounds were decided again')
         if not self.samples:
             self.samples.append({'note': 'no witness sample recorded'})
         cov = {
